@@ -4,6 +4,7 @@
 package harness
 
 import (
+	ethkittypes "github.com/meshplus/eth-kit/types"
 	"fmt"
 	"io/ioutil"
 	"math/big"
@@ -165,6 +166,8 @@ func Open(dir string, o Options) (r *Replica, err error) {
 	o = o.withDefaults()
 	cfg := BuildConfig(o)
 	cfg.RepoRoot = dir
+	// as cmd/bitxhub does at start: the signer that recovers the sender of Ethereum-format transactions
+	ethkittypes.InitEIP155Signer(new(big.Int).SetUint64(cfg.Genesis.ChainID))
 	lg := logrus.New()
 	if o.LogToStderr {
 		lg.SetOutput(os.Stderr)
